@@ -122,7 +122,13 @@ class NamespaceFunction(Namespace[symtable.Function]):
             for outer in reversed(stack):
                 if isinstance(outer, NamespaceClass):
                     continue
-                assert isinstance(outer, NamespaceFunction)
+                if not isinstance(outer, NamespaceFunction):
+                    # reached the module namespace (the free variable is the
+                    # target of an inlined module-level comprehension):
+                    # fail the same way with and without `python -O`
+                    raise RuntimeError(
+                        f"Unable to search the origin of nonlocal/free '{nonlocal_free}'"
+                    )
 
                 # free/nonlocal inevitablely exist in outer function namespace
                 # so check is not need here.
